@@ -30,17 +30,33 @@ def run(tier):
             pdocs, ddoc = clitrace.split_top(c["doc"], rnd, overlap)
             stats[{False: "disjoint", "pp": "overlap_param_param", "pd": "overlap_param_data"}[overlap]] += 1
             rules = [{"parse": "ok", "prog": c["prog"], "text": c["rules"]}]
-            texts = clitrace.render_docs(pdocs + [ddoc])
-            data = [{"load": "ok", "doc": ddoc, "text": texts[-1]}]
+            # every other case has a second data file (a variant of the first): the parameters are
+            # merged into each data file of the run
+            ddoc2 = clitrace.mutate_doc(ddoc, rnd)
+            texts = clitrace.render_docs(pdocs + [ddoc, ddoc2])
+            texts, text2 = texts[:-1], texts[-1]
+            data1 = [{"load": "ok", "doc": ddoc, "text": texts[-1]}]
+            data2 = data1 + [{"load": "ok", "doc": ddoc2, "text": text2}]
             for rep in range(2):
                 order = list(range(len(pdocs)))
                 if rep == 1:
                     rnd.shuffle(order)
-                mode = modes[(k + rep) % len(modes)]
-                entry = ["files", "payload", "stdin"][(k + rep) % 3]
+                # mode, entry point and number of data files are drawn independently of the kind of split
+                mode = rnd.choice(modes)
+                entry = rnd.choice(["files", "payload", "stdin"])
+                data = data2 if (entry != "stdin" and rnd.random() < 0.5) else data1
+                stats["two_data_files"] = stats.get("two_data_files", 0) + (1 if data is data2 else 0)
                 i += 1
                 line = clitrace.run_job(wd, i, rules, data, [texts[o] for o in order], mode, entry,
                                         params_docs=[pdocs[o] for o in order])
+                f.write(json.dumps(line) + "\n")
+            if not overlap:
+                # a structured run over two data files with disjoint parameters: every data file gets them
+                i += 1
+                stats["two_data_files"] = stats.get("two_data_files", 0) + 1
+                mode = [m for m in clitrace.MODES if m["fmt"] in ("sjson", "syaml", "junit", "sarif")][(k // 2) % 4]
+                line = clitrace.run_job(wd, i, rules, data2, texts[:len(pdocs)], mode, ["files", "payload"][(k // 8) % 2],
+                                        params_docs=pdocs)
                 f.write(json.dumps(line) + "\n")
     wd.close()
     lines, bad = clitrace.judge(res, tr, i)
@@ -50,7 +66,7 @@ def run(tier):
         res.sample({"cli_line": {k: l[k] for k in ("mode", "cmd")}, "params": l["params"], "data": l["data"][0]["doc"], "exit": l["obs"]["exit"]})
     os.remove(tr)
     res.cov["rule"] = ("MC_Merge: merge laws over all pairs/triples of small maps; R: generated documents split at random into 1-3 "
-                       "parameter files + data (disjoint, and deliberately overlapping), parameter files in two orders, plain / "
+                       "parameter files + data (disjoint, and deliberately overlapping; one or two data files), parameter files in two orders, plain / "
                        "structured / junit / print-json, files / stdin / payload; judged by TraceCli against Denote of the specification's "
                        "Merge of the parts (a clash must be an error exit, never a verdict)")
     return res.finish()
